@@ -209,6 +209,8 @@ def run(ck):
                      "frames_with_control_features": sum(1 for t in traces if any(s for s in t["stratum"]))})
     if not traces or sum(acc) == 0:
         raise MachineryError("no bootstrap trace was validated")
+    from harness import extras2
+    extras2.bootargs(ck)     # specification growth (refinement tier only): bootstrap argument rules and *_ci availability
     ck.assumptions += ["quantile levels k/8 and the integer-valued metric `count` make every reported quantile an exact multiple of 1/8",
                        "positive width / enclosure of the resampling mean: fixed seeds, n >= 8, n_boot >= 20, levels 0.01 / 0.99 (statistical clause, outside TLC)"]
 
